@@ -9,6 +9,8 @@
 // Tier C (same child): method x path shape x credentials x header x body over the admin
 // API, WHIP, group pages, recordings and static files, partly hand-written on a raw socket;
 // every request must get a status line and the server log must hold no recovered panic.
+// Tier D (same child): hostile RTP payloads / RTCP feedback on established WebRTC sessions
+// of every codec, with a subscriber and the disk recorder attached.
 package main
 
 import (
@@ -33,6 +35,8 @@ type batchArgs struct {
 	HTTPExtra int    `json:"http_extra"`
 	Malformed int    `json:"malformed"`
 	Whip      int    `json:"whip_sessions"`
+	RTP       int    `json:"rtp_sessions"`
+	RTPPkts   int    `json:"rtp_packets"`
 }
 
 func child() {
@@ -53,6 +57,7 @@ func child() {
 	}
 	writeWSGroups(srv)
 	writeHTTPGroups(srv)
+	writeRTPGroups(srv)
 	if err := os.WriteFile(srv.TokenFile, []byte(tokenFileLines()), 0o600); err != nil {
 		run.Inconclusive("token file: " + err.Error())
 		os.Exit(0)
@@ -108,6 +113,11 @@ func child() {
 		defer wg.Done()
 		hw.runAll(hcases, a.Malformed, a.Whip)
 	}()
+	wg.Add(1)
+	go func() {
+		defer wg.Done()
+		w.rtpTier(a.RTP, a.RTPPkts)
+	}()
 	wg.Wait()
 	if !w.bad.Load() {
 		w.checkCanary("after the batch")
@@ -126,7 +136,7 @@ func main() {
 	run.MaxReplays = 40
 	nb := 8
 	passes := run.Pick(1, 10)
-	args := batchArgs{NB: nb, SlowKeep: run.Pick(4, 1), Seq: run.Pick(16, 80), HTTPExtra: run.Pick(2, 6), Malformed: run.Pick(40, 120), Whip: run.Pick(6, 20)}
+	args := batchArgs{NB: nb, SlowKeep: run.Pick(4, 1), Seq: run.Pick(16, 80), HTTPExtra: run.Pick(2, 6), Malformed: run.Pick(40, 120), Whip: run.Pick(6, 20), RTP: run.Pick(5, 10), RTPPkts: run.Pick(800, 3000)}
 	type job struct {
 		b    uint64
 		pass int
@@ -189,11 +199,12 @@ func main() {
 	}
 	run.Assume("liveness of the process is observed through a canary websocket (ping/pong), a fresh join and the exit status of the child process that hosts the server")
 	run.Assume("a recovered handler panic is observed through the 'http: panic serving' lines net/http writes to the server log and through the missing response")
-	run.Assume("RTP/RTCP payloads reach the classifiers through the pure-parser tier only; no SRTP session is established (the WebRTC tier is out of reach of this check)")
+	run.Assume("hostile RTP travels in well-formed SRTP packets (pion marshals the RTP header; the payload, sequence numbers, timestamps, CSRCs, extensions and padding are the harness's); malformed RTP headers reach the classifiers through the pure-parser tier only")
 	run.Assume("watchdogs (60 s per ping/request, 25 min per batch) yield inconclusive, never a violation")
 	run.Finish("exploration", "A: chunks of 256 parser inputs from (seed, chunk): uniform bytes, structured RTP header + VP8/VP9/AV1/H264 descriptor with inconsistent fields, valid packets truncated at every length with 0-2 bit flips, mutated sdpfrag texts, each under all 8 codec names round-robin; "+
 		"B: the full list (membership state x message kind x {valid, field x {absent,num,bool,array,object,null,huge,deep,unknown,empty}, kind-specific mutations, raw frames, offer composites, random sequences}) split round-robin over 8 server processes, one lane per state; "+
 		"C: every path shape x 9 methods x {existing,nonexistent} x 4 precondition headers with admin credentials, plus pseudo-random segment/credential/header/body combinations, malformed hand-written requests and WHIP session lives; "+
+		"D: per batch 5-10 WebRTC sessions (publisher, subscriber, watcher, every other one recorded to disk), one per codec VP8/VP9/AV1/H264/opus: well-formed SRTP carrying inconsistent/truncated/foreign descriptors, seqno and timestamp jumps, CSRCs, extensions, padding, and hostile RTCP from both ends; "+
 		"distinct_nontrivial = distinct (tier, function | message kind | path shape, mutation class, codec | membership state | method+credentials, outcome class) tuples")
 }
 
@@ -238,6 +249,14 @@ func floors(run *vk.Run, jobs int) {
 	run.FloorCounter("whip_sessions_created", int64(jobs)*3)
 	run.FloorCounter("whip_trickle_accepted", 1)
 	run.FloorCounter("server_log_scans", int64(jobs))
+	run.FloorCounter("rtp_sessions_established", int64(jobs)*3)
+	for _, cd := range rtpCodecs {
+		run.FloorCounter("rtp_sessions_established:"+cd.name, int64(jobs)/2)
+		run.FloorCounter("rtp_packets_sent:"+cd.name, int64(jobs)*200)
+	}
+	run.FloorCounter("rtcp_packets_sent", int64(jobs)*50)
+	run.FloorCounter("rtp_packets_forwarded_to_subscribers", int64(jobs)*200)
+	run.FloorCounter("recordings_written", int64(jobs))
 }
 
 var _ = vclient.Tick
